@@ -481,6 +481,18 @@ func (c *Client) Get(
 	return blocks, nil
 }
 
+// setHash records the block hash reported alongside logs, receipts or traces.
+// When the block was fetched with a hash of its own the two must agree:
+// a difference means the chain was reorganized between the two requests.
+func setHash(b *eth.Block, h []byte) error {
+	if len(b.Header.Hash) == 32 && len(h) == 32 && !bytes.Equal(b.Header.Hash, h) {
+		const tag = "block %d changed between requests: %.4x != %.4x"
+		return fmt.Errorf(tag, b.Num(), []byte(b.Header.Hash), h)
+	}
+	b.Header.Hash.Write(h)
+	return nil
+}
+
 type blockResp struct {
 	Error      `json:"error"`
 	*eth.Block `json:"result"`
@@ -721,7 +733,9 @@ func (c *Client) receipts(ctx context.Context, url string, bm blockmap, start, l
 		if !ok {
 			return fmt.Errorf("block not found")
 		}
-		b.Header.Hash.Write(resps[i].Result[0].BlockHash)
+		if err := setHash(b, resps[i].Result[0].BlockHash); err != nil {
+			return err
+		}
 		for j := range resps[i].Result {
 			tx := b.Tx(uint64(resps[i].Result[j].TxIdx))
 			tx.PrecompHash.Write(resps[i].Result[j].TxHash)
@@ -829,7 +843,10 @@ func (c *Client) logs(ctx context.Context, url string, filter *glf.Filter, bm bl
 			return fmt.Errorf("block not found")
 		}
 		b.Lock()
-		b.Header.Hash.Write(logs[0].BlockHash)
+		if err := setHash(b, logs[0].BlockHash); err != nil {
+			b.Unlock()
+			return err
+		}
 		tx := b.Tx(k.b)
 		tx.PrecompHash.Write(logs[0].TxHash)
 		for i := range logs {
@@ -882,7 +899,9 @@ func (c *Client) traces(ctx context.Context, url string, bm blockmap, start, lim
 		if !ok {
 			return fmt.Errorf("missing block in block map")
 		}
-		block.Header.Hash.Write(res.Result[0].BlockHash)
+		if err := setHash(block, res.Result[0].BlockHash); err != nil {
+			return err
+		}
 
 		var tracesByTx = map[key][]traceBlockResult{}
 		for i := range res.Result {
